@@ -310,6 +310,16 @@ class Gen:
             sig = sig[:pos] + '-> (%s: %s)' % (retname, rtype) + where
             fired.append('R12')
         sig = sig.replace('::parity_scale_codec::alloc::vec::Vec', 'Vec').replace('::parity_scale_codec::', '')
+        # R2: wildcard parameter patterns get a fresh name (Verus accepts only identifier patterns)
+        cnt = [0]
+
+        def _wild(m):
+            cnt[0] += 1
+            return '%s_p%d:' % (m.group(1), cnt[0])
+        sig2 = re.sub(r'([(,]\s*)_\s*:', _wild, sig)
+        if sig2 != sig:
+            sig = sig2
+            fired.append('R2')
         if body is not None and 'decl' not in flags and 'external_body' not in flags:
             body = strip_attrs(body)
             body = rule_R4(body, fired)
@@ -544,6 +554,7 @@ class Gen:
             if m:
                 parent = '::'.join(self.cur_mod_stack)
                 self.cur_mod_stack.append(m.group(1))
+                self.meta.setdefault('module_lines', {})['::'.join(self.cur_mod_stack)] = [self.lineno(), None]
                 if m.group(1) == 'lem' and parent in self.meta['modules']:
                     # lemma sub-modules belong to the obligations of their parent module
                     self.meta['modules']['::'.join(self.cur_mod_stack)] = dict(self.meta['modules'][parent], note='lemmas of ' + parent)
@@ -551,6 +562,7 @@ class Gen:
                 nm = re.match(r'\s*\}\s*//\s*mod\s+(\w+)', l).group(1)
                 if not self.cur_mod_stack or self.cur_mod_stack[-1] != nm:
                     raise TemplateError('%s:%d: unbalanced mod close %s' % (name, i + 1, nm))
+                self.meta.setdefault('module_lines', {})['::'.join(self.cur_mod_stack)][1] = self.lineno()
                 self.cur_mod_stack.pop()
             self.out.append(l)
             i += 1
